@@ -139,9 +139,16 @@ def oracle_fit(ctx, thorough):
                 f'{best:.9g} < {base:.9g} of the returned coef_', case, None)
     if reg == 'tikhonov':
         ref = pykoop.Edmd(alpha=alpha).fit(X, **kw)
-        if np.max(np.abs(ref.coef_ - est.coef_)) > 5e-4 * max(1.0, np.max(np.abs(ref.coef_))):
+        # "coincides with Edmd": in terms of the documented cost (solver tolerance), and in terms of the coefficients
+        # up to the conditioning of the data (an SDP solver's 1e-7 objective accuracy is amplified by cond(Psi)^2)
+        c_ref = f(ref.coef_.T.ravel())
+        if base > c_ref + 2e-5 * max(1.0, abs(c_ref)):
+            return (f'{type(est).__name__} with pure Tikhonov regularisation has documented cost {base:.9g}, Edmd(alpha={alpha}) '
+                    f'reaches {c_ref:.9g}', case, None)
+        cond = np.linalg.cond(Psi)
+        if np.max(np.abs(ref.coef_ - est.coef_)) > 5e-3 * max(1.0, np.max(np.abs(ref.coef_))) * max(1.0, cond ** 2 / 10):
             return (f'{type(est).__name__} with pure Tikhonov regularisation differs from Edmd(alpha={alpha}) by '
-                    f'{np.max(np.abs(ref.coef_ - est.coef_)):.3g}', case, None)
+                    f'{np.max(np.abs(ref.coef_ - est.coef_)):.3g} (cond(Psi) = {cond:.3g})', case, None)
     return None, case, None
 
 
